@@ -260,6 +260,8 @@ ScaleBoundary(M, sol, ds, k) ==
    sol |-> [r \in RIdx(M) |-> sol[r] \div f(r)]]
 NoSum == [k |-> "none", idx |-> 0, solgiven |-> TRUE, sol |-> <<>>, fvak |-> "none", fnum |-> 1, fden |-> 1,
           frame |-> <<>>, scaled |-> FALSE,
+          fsub |-> <<>>,          \* the FVA frame has rows for these reactions only (mask; <<>> = all): a frame
+                                  \* computed with reaction_list=, or before a reaction was added to the model
           passpfba |-> FALSE,     \* the caller passes the Solution returned by pfba(model) explicitly
           stale |-> FALSE, c2 |-> <<>>]    \* the model objective is changed to c2 AFTER the solution was obtained
 DrawFrame(M, sol, ds, k) ==
@@ -285,12 +287,14 @@ BuildC20(d) ==
           [base EXCEPT !.k = k, !.idx = i, !.fvak = "frame", !.frame = fr],
           [base EXCEPT !.k = k, !.idx = i, !.fvak = "float", !.fnum = 1, !.fden = 1 + (ds[30] % 2)],
           [base EXCEPT !.k = k, !.idx = i, !.sol = any],
-          [base EXCEPT !.k = k, !.idx = i, !.solgiven = FALSE, !.sol = ZeroVec(M)]>>
+          [base EXCEPT !.k = k, !.idx = i, !.solgiven = FALSE, !.sol = ZeroVec(M)],
+          [base EXCEPT !.k = k, !.idx = i, !.fvak = "frame", !.frame = fr,
+                       !.fsub = [r \in RIdx(M) |-> IF (k = "rxn" /\ r = i) \/ ds[33 + r] % 2 = 0 THEN 1 ELSE 0]]>>
       used == SelectSeq([m \in MIdx(M) |-> m], LAMBDA m : \E r \in RIdx(M) : M.S[r][m] # 0)   \* metabolites of the model
-      two(k, i, o) == LET vs == variants(k, i) IN <<vs[((i + o) % 5) + 1], vs[((i + o + 2) % 5) + 1]>>
+      two(k, i, o) == LET vs == variants(k, i) IN <<vs[((i + o) % 6) + 1], vs[((i + o + 2) % 6) + 1]>>
       model == variants("model", 0)
-      mets == ConcatAll([q \in 1..Len(used) |-> two("met", used[q], ds[31] % 5)])
-      rxns == ConcatAll([r \in RIdx(M) |-> two("rxn", r, ds[32] % 5)])
+      mets == ConcatAll([q \in 1..Len(used) |-> two("met", used[q], ds[31] % 6)])
+      rxns == ConcatAll([r \in RIdx(M) |-> two("rxn", r, ds[32] % 6)])
       scbase == [base EXCEPT !.sol = sc.sol, !.scaled = TRUE]
       scfr == DrawFrame(sc.M, sc.sol, ds, 22)
       scaled == IF sc.M = M THEN <<>>
